@@ -70,6 +70,9 @@ typename DynamicArrayT<T, NC_>::Index
 DynamicArrayT<T, NC_>::emplace(const TArgs&... args) noexcept {
 	HFSM2_ASSERT(_count < CAPACITY);
 
+	if (_count >= CAPACITY)
+		return CAPACITY;
+
 	new (&_items[_count]) Item{args...};
 
 	return _count++;
@@ -83,6 +86,9 @@ HFSM2_CONSTEXPR(14)
 typename DynamicArrayT<T, NC_>::Index
 DynamicArrayT<T, NC_>::emplace(TArgs&&... args) noexcept {
 	HFSM2_ASSERT(_count < CAPACITY);
+
+	if (_count >= CAPACITY)
+		return CAPACITY;
 
 	new (&_items[_count]) Item{::hfsm2::forward<TArgs>(args)...};
 
